@@ -1,13 +1,17 @@
 (* C09 - reading RING text always ends with a query or a RING error.
-   Statements only (lemmas in Ring/Peg_proofs.v).  The grammar object is
-   regenerated from /repo on every run; the last three theorems are finite
-   certificates about it.  PARTIAL: the theorems cover the primitives of the
-   interpreter (digits, identifier scanner, position bookkeeping) and the
-   grammar certificates; totality of the whole interpreter on every text
-   (peg_never_stuck of DESIGN 5/C09) is decided by the correspondence with
-   time-outs, not yet by a theorem. *)
+   Statements only (lemmas in Ring/Peg_proofs.v, Ring/Peg_total.v,
+   Ring/Peg_cert.v).  The grammar object is regenerated from /repo on every
+   run; its certificate (nullable table + ranking: no left recursion through
+   nullable prefixes; closed; no empty alternative list) is COMPUTED AND
+   CHECKED inside Coq on every run, and C09_parse_total then holds for EVERY
+   text: Parser.parse ends (the interpreter never runs out of fuel above an
+   explicit linear bound), with a parse tree or a syntax error whose position
+   lies inside the text - never with another exception.  The reader stage
+   (tree -> query) is total by construction (structural recursion / fuel) and
+   classified by its result type.  Wall-clock time and the host recursion
+   limit are runtime (known finding for very long chains). *)
 From Coq Require Import List NArith Arith Bool.
-From PG Require Import Common.Strs Ring.Peg Ring.Peg_proofs Gen.RingGrammar.
+From PG Require Import Common.Strs Ring.Peg Ring.Peg_proofs Ring.Peg_total Ring.Peg_cert Ring.PegCorr Gen.RingGrammar.
 Import ListNotations.
 
 (* whatever Digit()/Number() accept, int() converts: no ValueError *)
@@ -55,6 +59,54 @@ Theorem C09_undefined_nts_known :
   forallb (fun n => existsb (str_eqb n) known_undefined) (undefined_nts enhanced_grammar_rules) = true.
 Proof. exact undefined_nts_known. Qed.
 Print Assumptions C09_undefined_nts_known.
+
+(* ---------- the whole interpreter ---------- *)
+(* for ANY grammar with a valid certificate: enough fuel => never out of fuel *)
+Theorem C09_no_hang_any_grammar : forall xdigit xdecimal xalpha rules nul rank,
+  cert_ok rules nul rank = true ->
+  forall K, (forall name body, rule_get rules name = Some body -> S (rank name) <= K) ->
+  forall n e st m, (forall b, In b (first nul e) -> rk rules rank b <= m) ->
+  1 + rem st * K + m <= n ->
+  forall ce out, run xdigit xdecimal xalpha rules n e st ce out <> RHang.
+Proof. exact run_no_hang. Qed.
+Print Assumptions C09_no_hang_any_grammar.
+
+(* success never moves backwards; success without consumption only for nullable expressions *)
+Theorem C09_progress : forall xdigit xdecimal xalpha rules nul rank,
+  cert_ok rules nul rank = true ->
+  forall n e st ce out st' ce' out',
+  run xdigit xdecimal xalpha rules n e st ce out = ROk st' ce' out' ->
+  rem st' <= rem st /\ (rem st' = rem st -> nullable nul e = true).
+Proof. exact run_rem. Qed.
+
+(* every position the interpreter reports (state, raised error, remembered
+   furthest error) is the (line, column) of a character offset of the text *)
+Theorem C09_positions : forall xdigit xdecimal xalpha rules s n e st ce out,
+  Pos s st -> CE s ce -> res_pos s (run xdigit xdecimal xalpha rules n e st ce out).
+Proof. exact run_pos. Qed.
+Theorem C09_position_inside : forall s l c, At s (l, c) -> 1 <= l <= 1 + nls s /\ 1 <= c <= 1 + length s.
+Proof. exact at_inside. Qed.
+Print Assumptions C09_positions.
+
+(* the regenerated grammar: certificate computed and checked by the kernel *)
+Theorem C09_grammar_certificate :
+  cert_ok G nul_of rank_of = true /\ closed G = true /\ no_empty G = true /\ rule_get G root <> None.
+Proof. exact (conj grammar_cert (conj grammar_closed (conj grammar_no_empty root_defined))). Qed.
+
+(* Parser.parse on EVERY text, for every classification of non-ASCII characters *)
+Theorem C09_parse_total : forall xd xdec xa s fuel,
+  fuel_bound s <= fuel ->
+  match parse_text xd xdec xa G root fuel s with
+  | OTree _ => True
+  | OSyntax l c => 1 <= l <= 1 + nls s /\ 1 <= c <= 1 + length s
+  | OInternal _ => False
+  | OHang => False
+  end.
+Proof. exact parse_text_total. Qed.
+Print Assumptions C09_parse_total.
+
+Example C09_fuel_bound_example : fuel_bound [102; 32]%N = 2 + 3 * KG /\ Nat.leb KG 60 = true.
+Proof. split; reflexivity. Qed.
 
 Example C09_example :
   rest (init [32; 10; 102; 32]%N) = [102; 32]%N /\ line (init [32; 10; 102; 32]%N) = 2
